@@ -71,7 +71,7 @@ TRANSLATE = {
     "hypergeo": ["_digamma", "_trigamma", "_betaln", "_hyperu_laplace", "_hyp1f1_laplace",
                  "_hyp2f1_laplace"],
     "approx": [
-        "approximate_log_moments", "approximate_gamma_kl", "approximate_gamma_mom",
+        "approximate_log_moments", "approximate_gamma_kl", "approximate_gamma_mom", "approximate_gamma_iqr",
         "_valid_moments", "_valid_gamma", "_valid_hyp1f1", "_valid_hyperu", "_valid_hyp2f1",
         "moments", "rootward_moments", "leafward_moments", "unphased_moments", "twin_moments",
         "sideways_moments", "mutation_moments", "mutation_rootward_moments",
@@ -88,10 +88,13 @@ TRANSLATE = {
 SKIP = {
     "hypergeo": {"_gammainc_inv": "scipy binding (gammaincinv); external function",
                  "_gammainc_der": "AS 239 series/continued-fraction loops; external function"},
-    "approx": {"approximate_gamma_iqr": "Newton loop over scipy's gammaincinv; modelled by hand in coq/model/ApproxIqr.v",
-               "average_gammas": "loop over arrays; not part of C18/C19/C06"},
+    "approx": {"average_gammas": "loop over arrays; not part of C18/C19/C06"},
 }
 FUEL = {"_digamma": "fuel_rec", "_trigamma": "fuel_rec"}     # constants of ApproxBase.v
+# functions of hypergeo.py that are NOT translated but called from translated code: fields of the record
+# ApproxBase.ExtFns (arbitrary functions in the theorems, recorded values in the float instance).
+#   name -> (number of arguments, may raise)
+EXTERNAL = {"_gammainc_inv": (2, False), "_gammainc_der": (2, True)}
 FUEL_LOOP = "fuel_loop"  # ApproxBase.v: 103; the loops raise at itt > 100
 ALLOWED_CLASSES = {"KLMinimizationFailedError", "Invalid2F1"}
 EXC_TAGS = {"KLMinimizationFailedError": "EKLFail"}
@@ -184,6 +187,7 @@ class ModuleTranslator:
         self.defs = {}
         self.consts = {}
         self.tmp = 0
+        self.ext_fns = {}
         self.gen_names = set()
         self.spec_cache = {}
         self.cur = None
@@ -332,6 +336,16 @@ class ModuleTranslator:
                 if f.attr in ext.fns:
                     fn = ext.fns[f.attr]
                     return ("fn", fn)
+                if f.attr in EXTERNAL and f.attr in SKIP[ext.modname]:
+                    if f.attr not in self.ext_fns:
+                        nargs, raises = EXTERNAL[f.attr]
+                        e = Fn(f.attr, f.attr.lstrip("_"), ["x%d" % i for i in range(nargs)])
+                        e.ptys = ["T"] * nargs
+                        e.rty = "T"
+                        e.can_raise = raises
+                        e.external = "E"
+                        self.ext_fns[f.attr] = e
+                    return ("fn", self.ext_fns[f.attr])
                 return None
         return None
 
@@ -598,13 +612,16 @@ class ModuleTranslator:
             codes.append(c)
         if fn.local:
             head = fn.coqname
+        elif fn.external == "E":
+            head = "(e_%s N__ E__)" % fn.coqname
+            self.cur.uses.add("E")
         elif fn.external and fn.external != self.modname:
             head = "(h_%s N__ H__)" % fn.coqname
             self.cur.uses.add("H")
         elif fn is self.cur:
             head = "%s_rec N__ F__ fuel__" % fn.coqname
         else:
-            head = "%s N__ F__%s" % (fn.coqname, " H__" if self.externals else "")
+            head = "%s N__ F__%s%s" % (fn.coqname, " H__" if self.externals else "", " E__" if "E" in fn.uses else "")
             self.cur.uses |= fn.uses
         return "(%s %s)" % (head, " ".join(codes))
 
@@ -912,8 +929,8 @@ class ModuleTranslator:
         for n in ast.walk(st):
             if isinstance(n, (ast.Break, ast.Continue, ast.Return)):
                 self.rej(n, "%s inside a while loop" % type(n).__name__)
-        # loop-carried variables = names assigned in the body
-        carried = []
+        # names assigned in the body
+        assigned = []
         for n in ast.walk(ast.Module(body=st.body, type_ignores=[])):
             if isinstance(n, (ast.Assign, ast.AugAssign)):
                 tg = n.targets if isinstance(n, ast.Assign) else [n.target]
@@ -921,10 +938,41 @@ class ModuleTranslator:
                     for e in ([t] if isinstance(t, ast.Name) else getattr(t, "elts", [])):
                         if not isinstance(e, ast.Name):
                             self.rej(n, "assignment target inside a loop")
-                        if e.id not in carried:
-                            carried.append(e.id)
+                        if e.id not in assigned:
+                            assigned.append(e.id)
             if isinstance(n, (ast.FunctionDef, ast.While)):
                 self.rej(n, "nested loop / def inside a loop")
+        # loop-carried = assigned in the body AND (read by the test, read in the body before being written
+        # in the same iteration, or read after the loop); the other assigned names are temporaries of one
+        # iteration (if such a name were read after the loop it would simply be unknown there: rejected)
+        def loads(node):
+            return {m.id for m in ast.walk(node) if isinstance(m, ast.Name) and isinstance(m.ctx, ast.Load)}
+
+        def exposed(stmts, written):
+            """names read before written in a statement list; returns (exposed, written afterwards)"""
+            exp = set()
+            written = set(written)
+            for x in stmts:
+                if isinstance(x, ast.Assign):
+                    exp |= loads(x.value) - written
+                    for t in x.targets:
+                        written |= {e.id for e in ([t] if isinstance(t, ast.Name) else t.elts)}
+                elif isinstance(x, ast.AugAssign):
+                    exp |= (loads(x.value) | {x.target.id}) - written
+                    written.add(x.target.id)
+                elif isinstance(x, ast.If):
+                    exp |= loads(x.test) - written
+                    e1, w1 = exposed(x.body, written)
+                    e2, w2 = exposed(x.orelse, written)
+                    exp |= e1 | e2
+                    written = w1 & w2
+                else:
+                    exp |= loads(x) - written
+            return exp, written
+        live = loads(st.test) | exposed(st.body, set())[0]
+        for x in rest:
+            live |= loads(x)
+        carried = [v for v in assigned if v in live]
         for v in carried:
             if v not in env:
                 self.rej(st, "loop variable %r is not initialised before the loop" % v)
@@ -1158,7 +1206,8 @@ class ModuleTranslator:
 
     def emit_fn(self, fn):
         params = " ".join("(%s : %s)" % (p, ty_coq(t)) for p, t in zip(fn.params, fn.ptys))
-        glob = "(N__ : Num) (F__ : Fns N__)" + (" (H__ : HypFns N__)" if self.externals else "")
+        glob = "(N__ : Num) (F__ : Fns N__)" + (" (H__ : HypFns N__)" if self.externals else "") + \
+            (" (E__ : ExtFns N__)" if "E" in fn.uses else "")
         out = ["(** tsdate/%s.py:%d-%d  [%s]%s *)" % (
             self.modname, fn.lines[0], fn.lines[1], fn.pyname,
             "   uses: " + " ".join(sorted(fn.uses)) if fn.uses else "")]
@@ -1222,7 +1271,7 @@ GROUPS = {
     "C18": {"hypergeo": ["_betaln", "_hyperu_laplace", "_hyp1f1_laplace", "_hyp2f1_laplace"],
             "approx": ["approximate_gamma_mom"] + _VALID + _MOM + _PROJ},
     "C19": {"hypergeo": ["_digamma", "_trigamma", "_betaln"],
-            "approx": ["approximate_log_moments", "approximate_gamma_kl", "approximate_gamma_mom"]},
+            "approx": ["approximate_log_moments", "approximate_gamma_kl", "approximate_gamma_mom", "approximate_gamma_iqr"]},
     "C06": {"hypergeo": [],
             "approx": ["approximate_gamma_mom"] + _VALID + _MOM + _PROJ},
 }
@@ -1289,7 +1338,8 @@ def regen(repo=None, out=None, write=True, freeze=False):
         "meta": {fn.pyname: {"module": m.modname, "coq": fn.coqname, "params": list(fn.params),
                              "ptys": ["T" if t == "T" else len(t[1]) for t in fn.ptys],
                              "rty": fn.rty, "is_bool": fn.is_bool, "can_nan": fn.can_nan,
-                             "can_raise": fn.can_raise, "uses": sorted(fn.uses), "lines": list(fn.lines),
+                             "can_raise": fn.can_raise, "uses": sorted(fn.uses), "uses_ext": "E" in fn.uses,
+                             "lines": list(fn.lines),
                              "asserts": list(fn.asserts)}
                  for m in (hyp, apx) for fn in m.order},
         "files": files,
